@@ -251,9 +251,30 @@ def frags_of(ex, s):
     return [p[1] if isinstance(p, tuple) else z3.Unit(p) for p in parts]
 
 
+universal_newlines = z3.Function("universal_newlines", z3.StringSort(), z3.StringSort())
+
+
 def _stringio_new(ex, cls, args, kwargs):
     init = args[0] if args else kwargs.get("initial_value", "")
-    return new_stringio(ex, init if init is not None else "")
+    extra = set(kwargs) - {"initial_value", "newline"}
+    if extra or len(args) > 2:
+        raise Unsupported(f"io.StringIO with arguments {sorted(extra)}")
+    nl = args[1] if len(args) > 1 else kwargs.get("newline", "\n")
+    init = init if init is not None else ""
+    if nl is None and isinstance(init, str) and init == "":
+        o = new_stringio(ex, "")
+        o.fields["nl_translate"] = True       # what is written reads back with CR LF / CR turned into LF
+        ex.assumptions_used.add("T-STD: io.StringIO(newline=None) translates CR LF and CR to LF")
+        return o
+    if nl is None:
+        # universal newlines: "\r\n" and "\r" in the initial value read back as "\n" (the text is unchanged when it has no "\r")
+        t = term(init, STR)
+        ex.assume(z3.Implies(z3.Not(z3.Contains(t, z3.StringVal("\r"))), universal_newlines(t) == t), "T-STD: universal newlines leave a text without CR unchanged")
+        ex.assumptions_used.add("T-STD: io.StringIO(newline=None) translates CR LF and CR to LF")
+        return new_stringio(ex, SV(universal_newlines(t), STR))
+    if nl not in ("\n", ""):
+        raise Unsupported(f"io.StringIO(newline={nl!r})")
+    return new_stringio(ex, init)
 
 
 M.CLASS_NEW[io.StringIO] = _stringio_new
@@ -278,6 +299,10 @@ def _file_method(ex, recv, name, args, kwargs):
     if name == "getvalue":
         if recv.fields.get("content") not in ("", None):
             raise Unsupported("getvalue of a StringIO with initial content")
+        if recv.fields.get("nl_translate"):
+            t = frag_text(recv.fields["out"].t)
+            ex.assume(z3.Implies(z3.Not(z3.Contains(t, z3.StringVal("\r"))), universal_newlines(t) == t), "T-STD: universal newlines leave a text without CR unchanged")
+            return SV(universal_newlines(t), STR)
         return SV(frag_text(recv.fields["out"].t), STR)
     if name == "seek":
         ex.setfield(recv, "pos", args[0])
@@ -362,13 +387,35 @@ def _parse_msd(ex, args, kwargs):
     return ParamIter(remaining_text(f), ig, f)
 
 
-def check_decodable(ex, f):
-    """T-FS: reading a text file raises UnicodeDecodeError iff its bytes do not decode in its encoding"""
+def _decide_decodable(ex, f):
+    """first contact with the file's content: fixes on this path whether its bytes decode (None: not a file of the ghost file system)"""
     u = f.fields.get("undecodable")
-    if u is not None and not f.fields.get("decode_checked"):
+    if u is None:
+        return None
+    if not f.fields.get("decode_checked"):
         f.fields["decode_checked"] = True
-        if ex.branch(u, "undecodable"):
-            ex.raise_(UnicodeDecodeError, "codec can't decode byte", tag="undecodable")
+        f.fields["is_undecodable"] = bool(ex.branch(u, "undecodable"))
+    return f.fields.get("is_undecodable")
+
+
+def check_decodable(ex, f):
+    """T-FS: reading a text file to its end raises UnicodeDecodeError iff its bytes do not decode in its encoding"""
+    if _decide_decodable(ex, f):
+        ex.raise_(UnicodeDecodeError, "codec can't decode byte", tag="undecodable")
+
+
+def _garbage_params(ex, f):
+    """T-FS / T-MSD: a parser that is handed an undecodable file *itself* reads it in chunks - it may yield any parameters
+    (whatever the bytes before the offending one decode to) before the UnicodeDecodeError surfaces"""
+    ex.assumptions_used.add("T-FS: a streamed undecodable file yields an arbitrary run of parameters before UnicodeDecodeError")
+    gp = fresh_term(PARAMS, "params_before_the_undecodable_byte")
+
+    def at(ex_, i):
+        return SV(P_at(gp, i), T_PARAM)
+
+    it = SymIter(z3.Length(gp), at, "parse_msd(undecodable file)", lambda ex_, i: [z3.Length(P_at(gp, i)) >= 1])
+    it.on_exhaust = lambda ex_: ex_.raise_(UnicodeDecodeError, "codec can't decode byte", tag="undecodable")
+    return it
 
 
 def _consume(ex, it: ParamIter, all_=False):
@@ -390,8 +437,8 @@ def _consume(ex, it: ParamIter, all_=False):
 
 def _param_iterable(ex, v):
     if isinstance(v, ParamIter):
-        if v.file is not None:
-            check_decodable(ex, v.file)
+        if v.file is not None and _decide_decodable(ex, v.file):
+            return _garbage_params(ex, v.file)
         ps = v.params()
         n = z3.Length(ps)
         start = v.taken
@@ -421,6 +468,10 @@ M.ITER_HOOKS.append(_param_iterable)
 
 def _next(ex, it, rest):
     if isinstance(it, ParamIter):
+        if it.file is not None:
+            # peeking at the first parameter of an undecodable file is modelled as failing at once; the alternative (a
+            # parameter from the decodable first chunk) ends in the same UnicodeDecodeError at the full read that follows
+            check_decodable(ex, it.file)
         ps = it.params()
         ex.assume(z3.Implies(it.ignore, z3.Not(msd_error(it.text, it.ignore))), "T-MSD-3: ignore_stray_text=True never raises MSDParserError")
         if ex.branch(z3.Length(ps) > it.taken, "has-param"):
